@@ -176,7 +176,7 @@ def check_mutation(prog: Program) -> list[Result]:
             else:
                 results.append(Result(name_a, HARNESS_ERROR, "", f"symbolic execution saw {who[:3]} modify an argument but the real execution does not ({real if real is not None else msg})"))
         else:
-            results.append(Result(name_a, HELD, "", f"{len(it.calls)} task calls, no argument changed", extra={"callables": calls, "trivial": False}))
+            results.append(Result(name_a, HELD, "", f"{len(it.calls) if it is not None else 0} task calls, no argument changed", extra={"callables": calls, "trivial": False}))
 
     # (b) symbolic: the reverse dependency-respecting order computes the same
     if fwd is not None:
